@@ -141,6 +141,10 @@ def run(ctx):
             lib.run_driver(exe, ["run", p, tier, g[0], g[-1]], env=env, timeout=2400)
             return p
         traces = list(pool.map(rec, groups))
+        # set_up histories of single projector objects (rows after every set_up next to those of a fresh object)
+        rp = os.path.join(ctx.work, "reuse.ndjson")
+        lib.run_driver(exe, ["reuse", rp, tier], env=env, timeout=2400)
+        traces += [c[0] for c in lib.split_trace(rp, os.path.join(ctx.work, "reuse"), maxlines=900 if q else 1500, boundary="ReuseStep")]
     ctx.notes.append("build + record: %.0f s after start (%d trace files)" % (time.time() - ctx.t0, len(traces)))
     # ------------------------------------------------------------------ 3. validate (and the vacuity guards on a recorded block)
     t0 = time.time()
@@ -157,6 +161,15 @@ def run(ctx):
                 break
         if not guards:
             raise lib.ModelFailure("no recorded block with the on-the-fly route and histories (needed for the vacuity guards)")
+        # a re-used object whose row differs from the fresh object's row in the last bit
+        rl = [json.loads(l) for l in open(os.path.join(ctx.work, "reuse", "reuse.001.ndjson")).read().splitlines()[:82]]
+        k = [i for i, r in enumerate(rl) if r["e"] == "Same" and r["F"]]
+        if not k:
+            raise lib.ModelFailure("vacuity guards: no recorded Same line with a non-empty row")
+        rl[k[0]]["F"][0][1] += 1
+        gp = os.path.join(ctx.work, "guard-reuse.ndjson")
+        lib.write_ndjson(gp, rl)
+        guards.append(("reused-object-row-1ulp", gp, k[0] + 1, "reuse-differs-from-fresh"))
 
     def val(p):
         return (p,) + lib.validate_trace("Trace_Projectors", p, timeout=2400, heap="3g")
@@ -168,6 +181,7 @@ def run(ctx):
     ctx.notes.append("trace validation: %d TLC runs (+ %d guard runs), %.0f s" % (len(traces), len(gres), time.time() - t0))
     known_ids = {k["id"] for k in ctx.known}
     nblocks = nhist = nbins = nevents = 0
+    nsame = {"reuse": 0, "zindex": 0, "xshift": 0}
     for (p, ok, r, at) in res:
         ctx.transitions += r.generated
         ctx.states += r.distinct
@@ -190,6 +204,17 @@ def run(ctx):
                     # distinct non-trivial case: (block configuration, segment, view) with a non-empty row
                     if '"F":[]' not in line:
                         ctx.nontrivial("B|%s|%s|%s" % (cfgname, m.group(1), m.group(3)))
+                elif ev == "Same":
+                    m = re.search(r'"ctx":"(\w+)","name":"([^"]+)","pair":"(\w+)","step":(-?\d+)', line)
+                    if '"F":[]' not in line or '"B":[[' in line:
+                        nsame[m.group(1)] += 1          # lines with a non-empty row
+                        ctx.nontrivial("S|%s|%s|%s" % (m.group(1), m.group(2), m.group(4)))
+                elif ev in ("ReuseStep", "XYShift", "OtfRefused"):
+                    if ev == "ReuseStep":
+                        ctx.traces += 0
+                    if (nevents + nbins) % 5 == 0:
+                        d = json.loads(line)
+                        ctx.sample({k: v for k, v in d.items() if k != "msg"}, cap=9)
                 elif ev == "HistStart":
                     nhist += 1
                     ctx.traces += 1
@@ -247,7 +272,9 @@ def run(ctx):
             raise lib.ModelFailure("vacuity guard: the invariants of MC_Projectors hold for the faulty operation '%s'" % name)
         ctx.notes.append("vacuity guard: faulty model '%s' violates %s (%d states)" % (name, "/".join(sorted(set(re.findall(r"Invariant (\w+) is violated", rf.out)))), rf.distinct))
     pool.shutdown()
-    ctx.extra.update({"blocks": nblocks, "histories": nhist, "bin_lines": nbins, "history_events": nevents})
+    if not ctx.replay and (nsame["reuse"] == 0 or nsame["zindex"] == 0):
+        raise lib.ModelFailure("no non-empty Same lines recorded (re-use / index conventions): %s" % nsame)
+    ctx.extra.update({"same_lines_reuse": nsame["reuse"], "same_lines_index_conventions": nsame["zindex"] + nsame["xshift"], "blocks": nblocks, "histories": nhist, "bin_lines": nbins, "history_events": nevents})
     ctx.exhaustive = False
     ctx.assumptions = [
         "which view/segment pairs a subset or a group of related viewgrams consists of is C06's result (Subsets.tla: Processed, Orbit); it is re-checked here only through the recorded entries",
